@@ -20,6 +20,7 @@ let entries : (String.t * (byte list -> byte list)) list = [
   "e2e_model", e2e_model_line;
   "e2e_texts_model", e2e_texts_model_line;
   "rec_e2e_model", rec_e2e_model_line;
+  "e2e_types_model", e2e_types_model_line;
   "rules_model", rules_model_line;
   "rules_spec", rules_spec_line;
   "rules_spec_raw", rules_spec_raw_line;
